@@ -273,6 +273,18 @@ class Report:
         self.violations.append(v)
         return v
 
+    def violate_raw(self, rid, modname, qual, construct, message, line, witness):
+        """a violation recorded earlier for the same inputs (cached_rules): the location is rebuilt for the tree analysed now"""
+        loc = None
+        if line is not None and modname in self.repo.mods:
+            loc = f'{self.repo.mods[modname].path}:{line}'
+        v = Violation(rid, modname, qual, construct, message, loc, witness)
+        for o in self.violations:
+            if o.key == v.key:
+                return o
+        self.violations.append(v)
+        return v
+
     def floor(self, name, measured, floor):
         """Instance floors are enforced in finish(): a missed floor with no violation reported is an
         ANALYSIS-ERROR (the rule would pass vacuously); when violations were found they explain the
@@ -368,3 +380,143 @@ class Report:
         if self.repo.root == DEFAULT_ROOT or os.environ.get('KV_WRITE_EVIDENCE'):
             with open(os.path.join(d, f'{self.prop}.json'), 'w') as f:
                 json.dump(ev, f, indent=1, default=str)
+
+
+# ------------------------------------------------------------------------------------------------ content-addressed cache of evaluated rule groups
+# An evaluated rule group is a deterministic function of (the source text of the modules it reads, the reference snapshot used for normalisation, the checker's own
+# source). Its outcome - the sequence of rule / obligation / violation / floor / note calls - is stored under the digest of exactly that and replayed on a hit. The
+# cache is an optimisation only (regression runs analyse hundreds of variants of which most modules are unchanged): a missing or disabled cache changes nothing but time.
+
+_SELF_DIGEST = None
+
+
+def _self_digest():
+    global _SELF_DIGEST
+    if _SELF_DIGEST is None:
+        h = hashlib.sha256()
+        root = os.path.dirname(os.path.dirname(os.path.abspath(__file__)))
+        for sub in ('kvstatic', 'checks', 'fixtures', os.path.join('reference', 'kyupy')):
+            d = os.path.join(root, sub)
+            for fn in sorted(os.listdir(d)) if os.path.isdir(d) else []:
+                fp = os.path.join(d, fn)
+                if os.path.isfile(fp) and not fn.endswith('.pyc'):
+                    h.update(fn.encode())
+                    h.update(open(fp, 'rb').read())
+        _SELF_DIGEST = h.hexdigest()
+    return _SELF_DIGEST
+
+
+def cache_key(repo, name, modules, extra=''):
+    h = hashlib.sha256()
+    h.update(_self_digest().encode())
+    h.update(name.encode())
+    h.update(repr(extra).encode())
+    h.update(('noequiv' if os.environ.get('KV_NO_EQUIV') else 'equiv').encode())
+    for m in modules:
+        h.update(m.encode())
+        h.update(repo.mod(m).digest.encode() if isinstance(repo.mod(m).digest, str) else repr(repo.mod(m).digest).encode())
+    return h.hexdigest()
+
+
+def cache_get(key):
+    if os.environ.get('KV_NO_CACHE'):
+        return None
+    import pickle
+    fp = os.path.join(os.environ.get('KV_CACHE_DIR', '/tmp/kvstatic-cache'), key[:2], key)
+    try:
+        with open(fp, 'rb') as f:
+            return pickle.load(f)
+    except Exception:  # noqa: BLE001 - no entry / unreadable entry: recompute
+        return None
+
+
+def cache_put(key, value):
+    if os.environ.get('KV_NO_CACHE'):
+        return
+    import pickle
+    d = os.path.join(os.environ.get('KV_CACHE_DIR', '/tmp/kvstatic-cache'), key[:2])
+    try:
+        os.makedirs(d, exist_ok=True)
+        tmp = os.path.join(d, f'.{key}.{os.getpid()}')
+        with open(tmp, 'wb') as f:
+            pickle.dump(value, f)
+        os.replace(tmp, os.path.join(d, key))
+    except Exception:  # noqa: BLE001
+        pass
+
+
+class _Recorder:
+    """stands in for a Report while a rule group runs: forwards everything to the real report and records the calls in a replayable form"""
+    def __init__(self, rep):
+        object.__setattr__(self, '_rep', rep)
+        object.__setattr__(self, '_events', [])
+
+    def __getattr__(self, name):
+        return getattr(self._rep, name)
+
+    def __setattr__(self, name, value):
+        setattr(self._rep, name, value)
+        if isinstance(value, (bool, int, str, tuple, type(None))):
+            self._events.append(('set', name, value))
+
+    def rule(self, rid, text):
+        self._events.append(('rule', rid, text))
+        return self._rep.rule(rid, text)
+
+    def ob(self, rid, instance, ok, evals=1, sample=None):
+        self._events.append(('ob', rid, short(instance, 200), bool(ok), evals, sample if _plain(sample) else None))
+        return self._rep.ob(rid, instance, ok, evals=evals, sample=sample)
+
+    def floor(self, name, measured, floor):
+        self._events.append(('floor', name, measured, floor))
+        return self._rep.floor(name, measured, floor)
+
+    def note(self, line):
+        self._events.append(('note', line))
+        return self._rep.note(line)
+
+    def violate(self, rid, mod, node_or_qual, construct, message, witness=None, node=None):
+        v = self._rep.violate(rid, mod, node_or_qual, construct, message, witness=witness, node=node)
+        line = None
+        if v.loc and ':' in str(v.loc):
+            try:
+                line = int(str(v.loc).rsplit(':', 1)[1])
+            except ValueError:
+                line = None
+        self._events.append(('violate', v.rule, v.module, v.qualname, v.construct, v.message, line, witness if _plain(witness) else None))
+        return v
+
+
+def _plain(x):
+    try:
+        json.dumps(x)
+        return True
+    except (TypeError, ValueError):
+        return False
+
+
+def cached_rules(rep, repo, name, modules, compute, extra=''):
+    """compute(rep_like) -> picklable return value. Replays the recorded outcome when the same inputs were analysed before."""
+    key = cache_key(repo, name, modules, extra)
+    hit = cache_get(key)
+    if hit is not None:
+        events, ret = hit
+        for e in events:
+            k = e[0]
+            if k == 'rule':
+                rep.rule(e[1], e[2])
+            elif k == 'ob':
+                rep.ob(e[1], e[2], e[3], evals=e[4], sample=e[5])
+            elif k == 'floor':
+                rep.floor(e[1], e[2], e[3])
+            elif k == 'note':
+                rep.note(e[1])
+            elif k == 'set':
+                setattr(rep, e[1], e[2])
+            elif k == 'violate':
+                rep.violate_raw(*e[1:])
+        return ret
+    rec = _Recorder(rep)
+    ret = compute(rec)          # a ModelError / AnalysisError propagates and nothing is stored
+    cache_put(key, (rec._events, ret))
+    return ret
